@@ -38,6 +38,8 @@ def run(rep):
     import c10
     rep.guard(c10.v2, rep, w)     # a debug-only cap on probe steps: a long (legal) probe chain aborts string creation in the checked build
     rep.guard(c01.r1_support, rep, w)     # equality by identity needs the table to keep every string for good: an entry that is released lets a second object with the same text appear
+    import c04
+    rep.guard(c04.b12, rep, w)    # one constant per distinct string / value: the constant pool is keyed by the value itself, not by a digest of it (two strings with one digest would be one constant)
     if rep.tier == 'thorough':
         import witness
         witness.run_witnesses(rep, 'C11', ['W1StringConstructorIsPrivate', 'W2StringFieldsArePrivate'])
